@@ -114,3 +114,30 @@ class AohMergeKey:
     }
     ensures = ["implies(bool(self._get_key_for(node_coord)), result == self._get_key_for(node_coord))"]
     opts = {"heap_fields": {"NodeCoords.node": "Any", "NodeCoords.parent": "Any", "NodeCoords.parentref": "Any"}}
+
+
+# ---------------------------------------------------------------------------------------------------
+# C10: where the anchor-conflict policy comes from (no per-path rules: anchors belong to the whole file)
+# ---------------------------------------------------------------------------------------------------
+@contract("yamlpath.merger.enums.anchorconflictresolutions.AnchorConflictResolutions.from_str", props=["C10"])
+class FromStrAnchors:
+    assumed = True
+    notes = "enum lookup by upper-cased name; total up to the documented NameError"
+    raises = ["NameError"]
+    opts = {"returns": "AnchorConflictResolutions", "pure": True}
+
+
+@contract(MC + "anchor_merge_mode", props=["C10"])
+class AnchorLadder:
+    """command line > [defaults] of the configuration file > built-in STOP -- as far as the library sees the arguments
+    (that argparse hands over None when --anchors is not given is the command-line glue: rtc/c10's policy-source stage)."""
+    assume_fields = CFG
+    raises = ["NameError"]
+    ensures = [
+        "implies(hasattr(self.args, 'anchors') and bool(self.args.anchors), result is AnchorConflictResolutions.from_str(self.args.anchors))",
+        "implies(not (hasattr(self.args, 'anchors') and bool(self.args.anchors)) and self.config is not None and 'defaults' in self.config "
+        "and 'anchors' in self.config['defaults'], result is AnchorConflictResolutions.from_str(self.config['defaults']['anchors']))",
+        "implies(not (hasattr(self.args, 'anchors') and bool(self.args.anchors)) and not (self.config is not None and 'defaults' in self.config "
+        "and 'anchors' in self.config['defaults']), result is AnchorConflictResolutions.STOP)",
+    ]
+    opts = {"returns": "AnchorConflictResolutions"}
